@@ -208,6 +208,18 @@ def alt_range(sc):
     return lo, hi
 
 
+def _alt_kind(rng, alt):
+    """20 % of the altitudes are whole metres handed over as int / numpy int / 0-d int array (value unchanged);
+    a few as float32 (value rounded to float32 first, so that model and reference see the same number)"""
+    r = rng.random()
+    if r < 0.2:
+        return {'alt': float(round(alt)), 'alt_kind': rng.choice(['int', 'np-int', 'int-array'])}
+    if r < 0.25:
+        import struct
+        return {'alt': struct.unpack('f', struct.pack('f', alt))[0], 'alt_kind': 'np-float32'}
+    return {}
+
+
 def gen_query(rng, sc, kind=None):
     lo, hi = alt_range(sc)
     lats, lons = sc['lats'], sc['lons']
@@ -251,7 +263,8 @@ def gen_query(rng, sc, kind=None):
                 h += rng.choice([-360.0, 360.0])
     use_point = rng.random() < 0.5
     return {'kind': kind, 'hour': hour, 'lat': lat, 'lon': lon, 'alt': alt, 'tas': tas, 'h': h,
-            'use_point': use_point, 'decoy': rng.uniform(0.0, 360.0), 'minute': rng.choice([0, 0, 7, 30, 59])}
+            'use_point': use_point, 'decoy': rng.uniform(0.0, 360.0), 'minute': rng.choice([0, 0, 7, 30, 59]),
+            **_alt_kind(rng, alt)}
 
 
 # ---------------------------------------------------------------------------------------------
@@ -323,7 +336,11 @@ def impl_query(chk: Check, sc, q):
         pt = GroundTrack.Point(Location(q['lon'], q['lat']), q['decoy'])
         kw = {'azimuth': q['h']}
     try:
-        gs = w.get_ground_speed(time=t, gt_point=pt, altitude=q['alt'], true_airspeed=q['tas'], **kw)
+        import numpy as np
+        ak = q.get('alt_kind', 'float')      # altitudes are often whole metres / feet: int, numpy int, 0-d int array
+        alt = {'float': lambda a: a, 'int': lambda a: int(a), 'np-int': lambda a: np.int64(int(a)),
+               'int-array': lambda a: np.array(int(a)), 'np-float32': lambda a: np.float32(a)}[ak](q['alt'])
+        gs = w.get_ground_speed(time=t, gt_point=pt, altitude=alt, true_airspeed=q['tas'], **kw)
         return ['ok', float(gs)]
     except ValueError as e:
         if 'outside weather data domain' in str(e):
@@ -607,7 +624,8 @@ def process(chk: Check, cases, variant, pairs=(), have_cfg=False):
         W = 0.0 if sc['wind'] == 'zero' else 1.0
         nontriv = io[0] == 'ok' and W > 0 and q['tas'] > 0
         chk.case(compact(sc, q), nontriv)
-        chk.count('kind:' + q['kind'])
+        chk.count('kind:' + q['kind'] + ('/repeated' if q.get('repeat_of_refused') else ''))
+        chk.count('altitude-as:' + q.get('alt_kind', 'float'))
         chk.count('impl:' + io[0])
         chk.count(f'file:{sc["wind"]}/{sc["taxis"]}/{sc["dtype"]}')
         def _uneven(ax):
@@ -703,6 +721,12 @@ def run(chk: Check):
                 g = rng.choice(group)
                 cases.append((g, gen_query(rng, g)))
                 budget -= 1
+                if cases[-1][1]['kind'].startswith('out-') and rng.random() < 0.7:
+                    # a refused query asked again at the same time / place / altitude with another heading and airspeed
+                    # must be refused again (nothing of the refused lookup may be remembered as an answer)
+                    q0 = cases[-1][1]
+                    cases.append((g, dict(q0, h=rng.uniform(0.0, 360.0), tas=rng.uniform(60.0, 280.0), repeat_of_refused=True)))
+                    budget -= 1
         if rng.random() < 0.25:
             # a second Weather object (another directory) with files of the SAME dates and grid but other winds, queried
             # alternately with the first one at the same times: state shared between Weather objects would show
